@@ -282,6 +282,22 @@ func run(c *core.Ctx, size bool) {
 				planOut = append(planOut, map[string]any{"type": f.Name, "k": p.k, "depth": p.depth, "slot_alphabet": len(alpha), "messages": nmsg, "secs": time.Since(t0).Seconds()})
 			}
 		}
+		// length sweep: every length-delimited container class with payload sizes around the prefix boundaries
+		if p.wireN > 0 || p.dyn {
+			sw := univ.LengthSweep(md, univ.SweepLengths(c.Thorough()))
+			for _, f := range flavors {
+				k := &checker{c: c, size: size, f: f}
+				c.Par(len(sw), func(i int) {
+					var m protoreflect.Message
+					if c.Guard(func() string { return "build type=" + f.Name + " case=" + univ.SweepName(sw[i]) }, func() { m = f.Build(sw[i]) }) {
+						return
+					}
+					k.one(m, "sweep"+univ.SweepName(sw[i]))
+				})
+			}
+			c.DistinctN(int64(len(sw)))
+			planOut[len(planOut)-1]["length_sweep_cases"] = len(sw)
+		}
 		if len(alpha) > 3 {
 			c.Sample(map[string]any{"type": p.name, "slots": univ.Names([]*univ.Slot{alpha[len(alpha)/3], alpha[2*len(alpha)/3]})})
 		}
